@@ -1,14 +1,15 @@
 """C02 — store/load round-trips and disturbs nothing outside the field."""
 import json, os, random
 import vlib
-from checks import ops_common
+from checks import ops_common, c02_gen
 import gen_ops_cases as G
 
 RULE = ("(a) the C01 exhaustive-geometry correspondence (real ops vs extracted Coq model); (b) a property oracle on the "
         "implementation alone: for every store case of (a), the bits outside [s,e) are compared with the input "
         "(python phys_byte/phys_bit written from the property text) and the stored buffer is loaded back and "
         "compared with v reduced to the field width (two's complement for signed carriers); "
-        "distinct = (byte order, bit order, carrier, len, s mod 8, e mod 8, bytes spanned) classes of round trips")
+        "distinct = (byte order, bit order, carrier, len, s mod 8, e mod 8, bytes spanned) classes of round trips; "
+        "(c) generated level: sequences of setter calls on compiled generated field sets (c02_gen.py)")
 
 
 def phys(be, msb0, ln, k):
@@ -104,13 +105,15 @@ def run(ctx):
     elif "D1" in known:
         # the recorded defect no longer shows: the finding file is stale; say so but do not fail
         ctx.log("note: known finding D1 was not reproduced in this run")
+    gen = c02_gen.run_gen_phase(ctx)
     if not diffs and not info["ok"] and nviol == 0:
         vlib.violation(ctx, {"broken": info["reason"], "theorem": "props/C02.v"}, no_input=True)
     vlib.write_evidence(ctx, info, {
         "evaluations": stats["evaluations"] + len(second), "distinct_nontrivial": len(classes), "rule": RULE,
         "samples": stats["samples"][:2] + [{"store": meta[i][0], "load_back": second[i], "implementation": back[i]} for i in (0, len(second) // 2)],
         "input_distribution": stats["histogram"], "exhaustive": True, "round_trips": len(second),
-        "known_D1_round_trips": d1_seen, "disagreements": len(diffs)})
+        "known_D1_round_trips": d1_seen, "disagreements": len(diffs),
+        "generated_setter_sequences": gen})
 
 
 def replay(ctx, path):
